@@ -9,6 +9,14 @@ COMMON_NOTE = ("Trusted: Coq 8.16.1 kernel and its VM (vm_compute; no native_com
                "(virtual clock, scheduler, canonicalisation, case printer). ")
 # id -> (text, note, technique, design_ref)
 CLAIMED = {
+ "C14": ("Theorems over the Gallina image of the four decision trees on the TTL-map spec, each as an invariant plus a one-call statement valid in every state "
+         "satisfying it: early never serves a result stored ttl or more ago, serves without running while younger than early_ttl, and starts a refresh only "
+         "when the lock is free (taking it for early_ttl); soft recomputes after soft_ttl and falls back only on a listed exception while younger than ttl; "
+         "failover always runs and falls back only on a listed exception; hit answers from the store only while fewer than cache_hits calls were answered from "
+         "that result (counter/served invariant incl. counter and result lifetimes). The real decorators on the facade are driven call by call under the virtual "
+         "clock, background refreshes held on a gate and completed at scripted instants, and compared with the model.",
+         "Sequential callers; default condition; 0.33*ttl defaults excluded; an inline refresh that raises propagates to the caller (model follows code).",
+         "Coq proof (per-decorator store invariants, counter invariant) + differential correspondence under virtual time with gated background refreshes", "3/C14"),
  "C02": ("Theorems over the Gallina image of simple.py / iterator.py / ttl.py on the TTL-map spec: an invariant (every store entry is the stored form of an "
          "accepted execution of that key with that execution's deadline) holds after every history; in any such state a call executes iff there is no live "
          "entry, returns its own outcome when it executes, otherwise the outcome of an accepted execution still within ttl, and rejected outcomes never enter "
